@@ -590,19 +590,59 @@ def _resolve_pairs(repo: Repo, reg: AlgoRegistry, fn: Fn, e_iter: ast.AST, t_ite
 
     for c in sites:
         node = ltb.cfg.node_of(c)
-        res = []
-        for x, kind in ((e_mod, e_kind), (t_mod, t_kind)):
-            if isinstance(x, ast.Name) and x.id in params:
-                arg = bind_arg(fn, c, x.id)
-                t = ltb.term(arg, node) if (arg is not None and node is not None) else None
-                res.append(_root_attr(ltb, t))
+        bound = [bind_arg(fn, c, x.id) if isinstance(x, ast.Name) and x.id in params else None for x in (e_mod, t_mod)]
+        # a call in the body of a loop over a literal table of (eval, target) rows is one call per row
+        for row, at in _rows_of_literal_loop(ltb.cfg, node, c, bound):
+            res = [_root_attr(ltb, ltb.term(arg, at)) if (arg is not None and at is not None) else None for arg in row]
+            if res[0] and res[1]:
+                out.append((res[0], res[1], e_kind, t_kind, learn, c))
             else:
-                res.append(None)
-        if res[0] and res[1]:
-            out.append((res[0], res[1], e_kind, t_kind, learn, c))
-        else:
-            raise AnalysisError(f"{fn.qualname}: cannot resolve the networks passed at {short(c)}")
+                raise AnalysisError(f"{fn.qualname}: cannot resolve the networks passed at {short(c)}")
     return out
+
+
+def _row_member(target: ast.AST, value: ast.AST, name: str) -> Optional[ast.AST]:
+    """the member of the literal row `value` that the loop target `target` binds to `name` (None when the row is not a literal of the target's shape)."""
+    if isinstance(target, ast.Name):
+        return value if target.id == name else None
+    if isinstance(target, (ast.Tuple, ast.List)) and isinstance(value, (ast.Tuple, ast.List)) and len(target.elts) == len(value.elts) \
+            and not any(isinstance(x, ast.Starred) for x in list(target.elts) + list(value.elts)):
+        for t, v in zip(target.elts, value.elts):
+            r = _row_member(t, v, name)
+            if r is not None:
+                return r
+    return None
+
+
+def _rows_of_literal_loop(cfg: CFG, node, call: ast.Call, args: List[Optional[ast.AST]]) -> List[Tuple[List[Optional[ast.AST]], object]]:
+    """The argument lists `call` (at `node`) is executed with, each with the node at which its expressions are evaluated.  Normally that is
+    [(args, node)].  When arguments are variables of ONE enclosing `for` over a non-empty literal tuple / list (written in the header or bound to a
+    single-definition temporary) whose rows are literals of the target's shape, the loop is the same program as one call per row, in order: the
+    result has one entry per row with the loop variables replaced by the row's members (evaluated where the table is built)."""
+    heads: Dict[int, object] = {}
+    which: Dict[int, str] = {}
+    for i, a in enumerate(args):
+        if a is None or node is None:
+            continue
+        a, at = _through_temps(cfg, node, a)
+        if isinstance(a, ast.Name) and at is not None:
+            defs = cfg.defs_reaching(at, a.id)
+            if len(defs) == 1 and defs[0].kind == "for" and isinstance(defs[0].ast, ast.For) and any(x is call for b in defs[0].ast.body for x in ast.walk(b)):
+                heads[defs[0].id] = defs[0]
+                which[i] = a.id
+    if len(heads) != 1:
+        return [(args, node)]
+    head = next(iter(heads.values()))
+    table, at = _through_temps(cfg, head, head.ast.iter)
+    if not isinstance(table, (ast.Tuple, ast.List)) or not table.elts or any(isinstance(x, ast.Starred) for x in table.elts):
+        return [(args, node)]
+    rows = []
+    for r in table.elts:
+        row = [(_row_member(head.ast.target, r, which[i]) if i in which else a) for i, a in enumerate(args)]
+        if any(i in which and row[i] is None for i in range(len(args))):
+            return [(args, node)]
+        rows.append((row, at))
+    return rows
 
 
 def _root_attr(tb: TermBuilder, p: Optional[Poly]) -> Optional[str]:
@@ -1086,4 +1126,18 @@ VARIANTS += [
 VARIANTS += [
     ("rsnorm-n-step-batch-not-normalised", "agilerl/wrappers/agent.py", "        if n_experiences is not None and is_tensor_collection(n_experiences):\n            n_experiences[\"obs\"] = self.normalize_observation(n_experiences[\"obs\"])\n            n_experiences[\"next_obs\"] = self.normalize_observation(\n                n_experiences[\"next_obs\"]\n            )\n", "", "fire", "C08.12"),
     ("rsnorm-n-step-batch-next-obs-only", "agilerl/wrappers/agent.py", "            n_experiences[\"obs\"] = self.normalize_observation(n_experiences[\"obs\"])\n", "", "fire", "C08.12"),
+]
+# ---- round 4: soft-update call sites in a loop over a literal table of (eval, target) rows (one call per row)
+_T3_UPDATES = "            self.soft_update(self.actor, self.actor_target)\n            self.soft_update(self.critic_1, self.critic_target_1)\n            self.soft_update(self.critic_2, self.critic_target_2)\n"
+VARIANTS += [
+    ("td3-soft-updates-as-table-loop-ok", _T3, _T3_UPDATES,
+     "            for net, target in (\n                (self.actor, self.actor_target),\n                (self.critic_1, self.critic_target_1),\n                (self.critic_2, self.critic_target_2),\n            ):\n                self.soft_update(net, target)\n", "silent", None),
+    ("td3-soft-updates-table-in-a-temporary-keyword-call-ok", _T3, _T3_UPDATES,
+     "            table = [(self.actor_target, self.actor), (self.critic_target_1, self.critic_1), (self.critic_target_2, self.critic_2)]\n            for dst, src in table:\n                self.soft_update(target=dst, net=src)\n", "silent", None),
+    ("td3-soft-update-table-crosses-the-critics", _T3, _T3_UPDATES,
+     "            for net, target in (\n                (self.actor, self.actor_target),\n                (self.critic_1, self.critic_target_1),\n                (self.critic_2, self.critic_target_1),\n            ):\n                self.soft_update(net, target)\n", "fire", "C08.4"),
+    ("td3-soft-update-table-misses-a-critic", _T3, _T3_UPDATES,
+     "            for net, target in (\n                (self.actor, self.actor_target),\n                (self.critic_1, self.critic_target_1),\n            ):\n                self.soft_update(net, target)\n", "fire", "C08.4"),
+    ("td3-soft-update-table-rows-reversed", _T3, _T3_UPDATES,
+     "            for net, target in (\n                (self.actor_target, self.actor),\n                (self.critic_target_1, self.critic_1),\n                (self.critic_target_2, self.critic_2),\n            ):\n                self.soft_update(net, target)\n", "fire", "C08.4"),
 ]
